@@ -44,6 +44,11 @@ pub enum Amf0SerializationError {
     #[error("String length greater than 65,535")]
     NormalStringTooLong,
 
+    /// Arrays and objects were nested deeper than the deserializer accepts, so the
+    /// encoded bytes could not be read back.
+    #[error("Arrays and objects are nested too deeply")]
+    MaxNestingDepthExceeded,
+
     /// An I/O error occurred while writing to the output buffer.
     #[error("Failed to write to byte buffer")]
     BufferWriteError(#[from] io::Error),
